@@ -94,6 +94,24 @@ def install() -> types.ModuleType:
     sub.SubExc = type("SubExc", (LookupError,), {"__module__": MOD + ".sub"})  # type: ignore[attr-defined]
     sys.modules[MOD] = m
     sys.modules[MOD + ".sub"] = sub
+
+    # a loaded package that serves some of its names lazily (PEP 562 module __getattr__): asking it for `LazyExc`,
+    # `lazy_func` or `lazy_sub` imports the planted unloaded module; those names are NOT in the module namespace
+    lazy = types.ModuleType(MOD + "_lazy")
+
+    def __getattr__(name: str) -> Any:
+        if name in ("LazyExc", "lazy_func", "lazy_sub"):
+            CALLS.append("lazy.__getattr__:" + name)
+            import importlib
+
+            mod = importlib.import_module("vt_unloaded_trap")
+            return {"LazyExc": getattr(mod, "Boom", None), "lazy_func": getattr(mod, "run", None), "lazy_sub": mod}[name]
+        raise AttributeError(name)
+
+    lazy.__getattr__ = __getattr__  # type: ignore[assignment]
+    lazy.__all__ = ["LazyExc", "lazy_func", "lazy_sub", "Eager"]  # type: ignore[attr-defined]
+    lazy.Eager = GoodExc  # type: ignore[attr-defined]
+    sys.modules[MOD + "_lazy"] = lazy
     return m
 
 
